@@ -457,6 +457,9 @@ func Select(site string, hasDefault bool, cases ...SelCase) int {
 	}
 	if fired >= 0 {
 		raceAcquireAddr(self.syncB)
+		if o := cases[fired].objID(); o != obj {
+			Touch(o)
+		}
 		return fired
 	}
 	var ready [16]int
@@ -485,5 +488,8 @@ func Select(site string, hasDefault bool, cases ...SelCase) int {
 	}
 	idx := rs[pick]
 	cases[idx].perform(self)
+	if o := cases[idx].objID(); o != obj {
+		Touch(o)
+	}
 	return idx
 }
